@@ -1,7 +1,6 @@
 package main
 
 import (
-	"bytes"
 	"encoding/json"
 	"fmt"
 	"os"
@@ -71,7 +70,7 @@ func cellMap(run *bsRun) []hx.Sx {
 }
 
 func genC15(o *hx.Out, r *hx.Rng, tier string, replay string) error {
-	o.Rule = "nan-inf (tag 8): 1-3 files, 2-4 benchmarks (shared by all files: +Inf / -Inf among the values; in one file only: NaN, +Inf, -Inf; spellings NaN nan Inf inf +Inf -Inf Infinity), 1-2 units, samples of 1..32 values, benchmarks interleaved; five variants per input with the lines of every benchmark reordered within the positions it occupies (as generated, special values first, last, in the middle, shuffled); every variant in process (cells with the values in order of arrival) and through the binary in text and csv at GOMAXPROCS 1 and 4, the first ones under -race: each cell's sample must be the NaN-first ascending arrangement of its measurements, cells and bytes identical for all variants. vary-warnings: tables of 2-4 columns x 24-40 rows where -row .name merges sub-benchmarks differing in /format, /n (and the note: file key under -table goos; columns by file or by -col /v), so that \"benchmarks vary in ...\" arises in the baseline cell AND other cells of the same row (same / different field lists), only in the baseline, only elsewhere, nowhere; each run repeatedly at GOMAXPROCS 1,2,4,16 in text and csv (stdout and the csv warning stream compared byte for byte), twice more in process and under the -race build; the first run's text footnotes and csv warnings are compared with the rendering model of the tables in which every cell carries the warning derived from the residue keys of its OWN measurements. benchstat inputs from the C14 generator; each is run through the real binary several times across GOMAXPROCS in {1,2,3,16} in text and csv (bytes compared), a subset under a -race build, twice in process (fresh map seeds), and once more with the benchmark lines of every configuration block permuted (cell contents compared as a map keyed by table/row/column labels). non-trivial = at least two cells; distinct by input"
+	o.Rule = "perm (tag 9, c15perm.go): every input is run as given (A) and with the benchmark lines of every configuration block permuted (B: shuffled / reversed / last line first); recorded per run: the requested order of every field of the table, row and column key, the stream of projected measurements in input order, tables / rows / columns in output order, every cell; judged: arrangement = the one stream and orders determine (first observation, alpha, fixed list, num), each cell compared with the cell of its row in the first column, A and B the same cells with the same contents INCLUDING the comparison; tag C15_perm_changes_first_column iff a simulation of the documented ordering on both streams gives some cell another baseline column (known finding C15_perm_changes_baseline). Two input sources: the C14 generator (class bs) and own files with columns keyed by the sub-name key /v (class perm: 1-2 files, 1-2 blocks with the same configuration keys, 1-3 benchmarks x 2-4 values of /v, optional /n, 1-2 units; each file set under -col /v AND -col /v@alpha AND /v@(fixed list) / @num; also .file, .file,/v, rows by /v). Each run >= 8 times through the binary (GOMAXPROCS 1,2,3,16 x text,csv), in process twice, the first ones under -race. nan-inf (tag 8): 1-3 files, 2-4 benchmarks (shared by all files: +Inf / -Inf among the values; in one file only: NaN, +Inf, -Inf; spellings NaN nan Inf inf +Inf -Inf Infinity), 1-2 units, samples of 1..32 values, benchmarks interleaved; five variants per input with the lines of every benchmark reordered within the positions it occupies (as generated, special values first, last, in the middle, shuffled); every variant in process (cells with the values in order of arrival) and through the binary in text and csv at GOMAXPROCS 1 and 4, the first ones under -race: each cell's sample must be the NaN-first ascending arrangement of its measurements, cells and bytes identical for all variants. vary-warnings: tables of 2-4 columns x 24-40 rows where -row .name merges sub-benchmarks differing in /format, /n (and the note: file key under -table goos; columns by file or by -col /v), so that \"benchmarks vary in ...\" arises in the baseline cell AND other cells of the same row (same / different field lists), only in the baseline, only elsewhere, nowhere; each run repeatedly at GOMAXPROCS 1,2,4,16 in text and csv (stdout and the csv warning stream compared byte for byte), twice more in process and under the -race build; the first run's text footnotes and csv warnings are compared with the rendering model of the tables in which every cell carries the warning derived from the residue keys of its OWN measurements. benchstat inputs from the C14 generator; each is run through the real binary several times across GOMAXPROCS in {1,2,3,16} in text and csv (bytes compared), a subset under a -race build, twice in process (fresh map seeds),. non-trivial = at least two cells; distinct by input"
 	exe, err := buildBenchstat(false)
 	if err != nil {
 		return err
@@ -80,7 +79,7 @@ func genC15(o *hx.Out, r *hx.Rng, tier string, replay string) error {
 	if err != nil {
 		return err
 	}
-	n, reps, nrace := 40, 2, 12
+	n, reps, nrace := 40, 2, 20
 	if tier == "thorough" {
 		n, reps, nrace = 300, 8, 100
 	}
@@ -89,7 +88,6 @@ func genC15(o *hx.Out, r *hx.Rng, tier string, replay string) error {
 		return err
 	}
 	defer os.RemoveAll(dir)
-	procs := []string{"1", "2", "3", "16"}
 	// in-process sequence: the same invocations again, all in ONE process (tagged test in cmd/benchstat)
 	type inprocRun struct {
 		args     []string
@@ -104,53 +102,15 @@ func genC15(o *hx.Out, r *hx.Rng, tier string, replay string) error {
 		if err := writeBsFiles(dir, in); err != nil {
 			return err
 		}
-		run := runBenchstatInProc(dir, in, fl)
-		if run.err != nil {
-			o.Count("pipeline-error")
+		// the input as given (A) and with the benchmark lines of every configuration block permuted (B):
+		// repeated runs of the binary, the -race build, in process; case kind 9 (c15perm.go)
+		in2 := c15PermuteInput(rr, in, 0)
+		_, ok, err := c15PermCase(o, c15Bins{exe: exe, raceExe: raceExe, dir: dir, reps: reps, race: i < nrace}, in, in2, fl, "bs", nil)
+		if err != nil {
+			return err
+		}
+		if !ok {
 			continue
-		}
-		var wantText, wantCSV, wantErr bytes.Buffer
-		run.tables.ToText(&wantText, false)
-		run.tables.ToCSV(&wantCSV, &wantErr)
-		identical := true
-		nruns := 0
-		firstDiff := ""
-		for rep := 0; rep < reps; rep++ {
-			for _, p := range procs {
-				env := []string{"GOMAXPROCS=" + p}
-				gt, _, _ := runBinary(exe, dir, in, "text", env)
-				gc, _, _ := runBinary(exe, dir, in, "csv", env)
-				nruns += 2
-				if gt != wantText.String() || gc != wantCSV.String() {
-					identical = false
-					if firstDiff == "" {
-						firstDiff = "GOMAXPROCS=" + p
-					}
-				}
-			}
-		}
-		// second in-process run (fresh maps, goroutines scheduled anew)
-		run2 := runBenchstatInProc(dir, in, fl)
-		var t2 bytes.Buffer
-		if run2.err == nil {
-			run2.tables.ToText(&t2, false)
-		}
-		if run2.err != nil || t2.String() != wantText.String() {
-			identical = false
-		}
-		raceOK := true
-		if i < nrace {
-			for _, p := range []string{"4", "16"} {
-				out, serr, _ := runBinary(raceExe, dir, in, "text", []string{"GOMAXPROCS=" + p, "GORACE=atexit_sleep_ms=0"})
-				if strings.Contains(serr, "DATA RACE") {
-					raceOK = false
-				}
-				if out != wantText.String() {
-					identical = false
-				}
-				nruns++
-			}
-			o.Count("race-runs")
 		}
 		// remember this invocation for the in-process sequence (files get unique names there)
 		{
@@ -175,35 +135,10 @@ func genC15(o *hx.Out, r *hx.Rng, tier string, replay string) error {
 				seq = append(seq, inprocRun{args: args, want: want, input: in, hasAlpha: ha})
 			}
 		}
-		// permuted lines
-		cellsA := cellMap(run)
-		in2 := bsInput{Flags: in.Flags}
-		for _, f := range in.Files {
-			in2.Files = append(in2.Files, bsFile{Name: f.Name, Label: f.Label, Content: permuteBenchLines(rr, f.Content)})
-		}
-		// files sharing a name must share content (duplicate paths)
-		seen := map[string]string{}
-		for k, f := range in2.Files {
-			if c, ok := seen[f.Name]; ok {
-				in2.Files[k].Content = c
-			} else {
-				seen[f.Name] = f.Content
-			}
-		}
-		if err := writeBsFiles(dir, in2); err != nil {
-			return err
-		}
-		run3 := runBenchstatInProc(dir, in2, fl)
-		var cellsB []hx.Sx
-		if run3.err == nil {
-			cellsB = cellMap(run3)
-		}
-		ncells := len(cellsA)
-		o.Count(fmt.Sprintf("cells=%d", min(ncells/4*4, 40)))
-		o.Count(fmt.Sprintf("runs=%d", nruns))
-		input := map[string]interface{}{"input": in, "permuted": in2, "first_diff": firstDiff, "identical": identical, "race_ok": raceOK}
-		o.Add(hx.L(hx.Bool(identical), hx.Bool(raceOK), hx.List(cellsA), hx.List(cellsB), hx.I(nruns)),
-			input, fmt.Sprint(in), ncells >= 2)
+	}
+	// columns keyed by a sub-name key with and without an explicit order, lines permuted (c15perm.go)
+	if err := c15GenPermCases(o, r.Split(), tier, exe, raceExe); err != nil {
+		return err
 	}
 	// over-aggregation warnings in several cells of one row, many rows (c15warn.go)
 	if err := c15GenVaryCases(o, r.Split(), tier, exe, raceExe); err != nil {
@@ -264,8 +199,8 @@ func genC15(o *hx.Out, r *hx.Rng, tier string, replay string) error {
 			if same {
 				input["got"], input["want"] = "", ""
 			}
-			// same case shape as the others: (identical, race_ok, cellsA, cellsB, runs)
-			o.Add(hx.L(hx.Bool(same), hx.Bool(true), hx.List(nil), hx.List(nil), hx.I(1)), input,
+			// (identical, race_ok, (), (), runs): two runs are compared, the stand-alone one and this one
+			o.Add(hx.L(hx.Bool(same), hx.Bool(true), hx.List(nil), hx.List(nil), hx.I(2)), input,
 				fmt.Sprint("inproc", k), true)
 		}
 	}
